@@ -9,6 +9,10 @@
 //   solve_bicgstabl  side L delta convex maxiter tol abstol ns          A PREC f x0
 //   hist_gmres | hist_fgmres | hist_lgmres | hist_bicgstabl   <params as above>  n k (A PREC f x0)^k   (ONE solver object)
 //   hist_idrs        <params as above>  n k RAW (A PREC f x0)^k
+//   dblhist_<solver> <params as above> n k (A PREC f x0)^k     labelled TEST in DOUBLE precision (C15): the history is run on
+//       ONE real solver object at double (op-line rationals rounded to double; matrices scaled by 10^200 make the first
+//       calls overflow to Inf/NaN inside the work arrays) and every call is compared BITWISE with the same call on a fresh
+//       object.  The canonical result line is the constant "ok" (the Lean model only validates the shape of the line).
 // RAW = the s random vectors the constructor of idrs draws (mt19937(pid*nt+tid), uniform(-1,1)) before it
 //   orthonormalises them into the shadow space P.  They are an INPUT of the Lean model.  The harness runs with ONE
 //   OpenMP thread; if RAW equals the stream of mt19937(0) the real object is used untouched (tag P_native), otherwise
@@ -33,6 +37,7 @@
 #include <amgcl/solver/bicgstabl.hpp>
 #include <tuple>
 #include <random>
+#include <cstring>
 #ifdef _OPENMP
 #include <omp.h>
 #endif
@@ -148,6 +153,38 @@ static bool solve_q(Dense G, std::vector<Q> b, std::vector<Q> &c) {      // exac
 }
 static bool small_entries(const Dense &D, double bound) { for (auto &r : D) for (auto &x : r) if (std::fabs(x.v.get_d()) > bound) return false; return true; }
 
+struct OutD { bool thrown = false; size_t it = 0; double res = 0; std::vector<double> x; };
+static bool same_bits(const OutD &a, const OutD &b) {
+    if (a.thrown != b.thrown || a.x.size() != b.x.size()) return false;
+    if (!a.thrown && (a.it != b.it || std::memcmp(&a.res, &b.res, sizeof(double)) != 0)) return false;
+    return a.x.empty() || std::memcmp(a.x.data(), b.x.data(), a.x.size() * sizeof(double)) == 0;
+}
+template <class SolverD> static OutD call_d(const SolverD &S, const CallData &d) {
+    const long n = d.n();
+    auto Ad = crs_d(d.A); PrecD Pd; Pd.kind = d.pk; Pd.A = Ad;
+    if (d.pk == 1) { std::vector<double> dv(n); for (long i = 0; i < n; ++i) dv[i] = d.pd[i].v.get_d(); Pd.d = std::make_shared<amgcl::backend::numa_vector<double>>(dv); }
+    if (d.pk == 2) Pd.M = crs_d(d.PM);
+    std::vector<double> fd(n), xd(n); for (long i = 0; i < n; ++i) { fd[i] = d.f[i].v.get_d(); xd[i] = d.x0[i].v.get_d(); }
+    amgcl::backend::numa_vector<double> F(fd), X(xd);
+    OutD o;
+    try { std::tie(o.it, o.res) = S(*Ad, Pd, F, X); } catch (const std::runtime_error&) { o.thrown = true; }
+    o.x.assign(X.data(), X.data() + X.size());
+    return o;
+}
+// MK: () -> shared_ptr<SolverD> (a freshly constructed object)
+template <class MK> static void dbl_history(MK mk, const std::vector<CallData> &cs, Result &r) {
+    auto S = mk();
+    bool nonfinite = false;
+    for (size_t k = 0; k < cs.size(); ++k) {
+        OutD o = call_d(*S, cs[k]);
+        auto F = mk(); OutD fr = call_d(*F, cs[k]);
+        if (O_C15 && !same_bits(o, fr)) r.fail("TEST(double): history call " + std::to_string(k) + " differs bitwise from the same call on a fresh object");
+        for (double v : o.x) if (!std::isfinite(v)) nonfinite = true;
+        if (!o.thrown && !std::isfinite(o.res)) nonfinite = true;
+    }
+    if (nonfinite) r.tag("dbl_nonfinite_call");
+}
+
 // the private norm() of gmres / fgmres / lgmres / idrs: std::abs(sqrt(inner_product(x, x)))
 static Q nrmA(const std::vector<Q> &v) { return vq::abs(vq::sqrt(dot(v, v))); }
 static bool left_kind(const Prm &p) { return p.left && (p.solver == S_GMRES || p.solver == S_LGMRES || p.solver == S_BICGSTABL); }
@@ -247,7 +284,7 @@ static void oracle(const Prm &p, const CallData &d, const Out &o, Result &r, boo
             else { amgcl::solver::fgmres<BackendD>::params q; q.M = p.M; q.maxiter = k; q.tol = 0; q.abstol = 0; q.ns_search = p.ns; amgcl::solver::fgmres<BackendD> S(n, q); std::tie(itd, resd) = S(*Ad, Pd, F, X); }
             double nfd = tiny ? 1.0 : std::sqrt(dot(d.f, d.f).v.get_d());
             double got = resd * nfd;
-            if (std::fabs(got - min_norm) > 1e-6 * std::max(r0_norm, 1e-300)) {
+            if (!(std::fabs(got - min_norm) <= 1e-6 * std::max(r0_norm, 1e-300))) {       // (NaN fails)
                 std::ostringstream m; m << "TEST(double): gmres residual after k=" << k << " iterations " << got << " != least-squares minimum over the Krylov space " << min_norm;
                 r.fail(m.str());
             }
@@ -315,6 +352,26 @@ static Result execute(const Toks &t) {
     else if (op == "solve_idrs") solver = S_IDRS; else if (op == "solve_bicgstabl") solver = S_BICGSTABL;
     else if (op == "hist_gmres") { solver = S_GMRES; hist = true; } else if (op == "hist_fgmres") { solver = S_FGMRES; hist = true; } else if (op == "hist_lgmres") { solver = S_LGMRES; hist = true; }
     else if (op == "hist_idrs") { solver = S_IDRS; hist = true; } else if (op == "hist_bicgstabl") { solver = S_BICGSTABL; hist = true; }
+    else if (op.rfind("dblhist_", 0) == 0) {
+        std::string sn = op.substr(8); bool dbl_ok = false;
+        for (int k = S_GMRES; k <= S_BICGSTABL; ++k) if (sn == solver_name(k)) { solver = k; dbl_ok = true; }
+        if (!dbl_ok) { r.out = "bad-op"; return r; }
+        Prm p = parse_prm(solver, c);
+        long n = parse_nat(c), k = parse_nat(c);
+        std::vector<CallData> cs; for (long i = 0; i < k; ++i) cs.push_back(parse_call(c));
+        c.expect_end();
+        for (auto &d : cs) { validate(d); if (d.n() != n) throw bad_input("n"); }
+        typedef amgcl::solver::gmres<BackendD> GD; typedef amgcl::solver::fgmres<BackendD> FD; typedef amgcl::solver::lgmres<BackendD> LD;
+        typedef amgcl::solver::idrs<BackendD> ID; typedef amgcl::solver::bicgstabl<BackendD> BD;
+        auto common = [&](auto &q) { q.maxiter = p.maxiter; q.tol = p.tol.v.get_d(); q.abstol = p.abstol.v.get_d(); q.ns_search = p.ns; q.verbose = false; };
+        if (solver == S_GMRES) dbl_history([&]() { GD::params q; q.M = p.M; q.pside = side_of(p); common(q); return std::make_shared<GD>(n, q); }, cs, r);
+        else if (solver == S_FGMRES) dbl_history([&]() { FD::params q; q.M = p.M; common(q); return std::make_shared<FD>(n, q); }, cs, r);
+        else if (solver == S_LGMRES) dbl_history([&]() { LD::params q; q.M = p.M; q.K = p.K; q.always_reset = true; q.pside = side_of(p); common(q); return std::make_shared<LD>(n, q); }, cs, r);
+        else if (solver == S_IDRS) dbl_history([&]() { ID::params q; q.s = p.s; q.omega = p.omega.v.get_d(); q.smoothing = p.smoothing; q.replacement = p.replacement; common(q); return std::make_shared<ID>(n, q); }, cs, r);
+        else dbl_history([&]() { BD::params q; q.L = (int)p.L; q.delta = p.delta.v.get_d(); q.convex = p.convex; q.pside = side_of(p); common(q); return std::make_shared<BD>(n, q); }, cs, r);
+        r.out = "ok"; r.nontrivial = cs.size() >= 2; r.tag(std::string("dblhist_") + solver_name(solver));
+        return r;
+    }
     else { r.out = "bad-op"; return r; }
 #ifdef _OPENMP
     if (omp_get_max_threads() != 1) { r.out = "harness-needs-OMP_NUM_THREADS=1"; r.fail("the idrs constructor seeds its generator per thread: run with one thread"); return r; }
@@ -408,6 +465,27 @@ static void put_raw(Rng &rng, Line &l, long n, long s) {
 }
 static long prm_s(const std::string &prm_line) { return atol(split(prm_line)[0].c_str()); }
 
+// a double-precision history whose first call(s) overflow: SPD matrix scaled by 10^200 (all entries finite doubles)
+static std::string gen_dblhist(Rng &rng, int solver) {
+    Line l; l << (std::string("dblhist_") + solver_name(solver));
+    Line pl;
+    if (solver == S_IDRS) pl << rng.range(2, 4) << Q::frac(7, 10) << rng.coin(1, 3) << rng.coin(1, 3);
+    else if (solver == S_BICGSTABL) pl << (rng.coin() ? "left" : "right") << rng.range(1, 3) << (rng.coin() ? Q(0) : Q::frac(1, 100)) << rng.coin();
+    else { if (solver != S_FGMRES) pl << (rng.coin() ? "left" : "right"); pl << rng.range(2, 5); if (solver == S_LGMRES) pl << rng.range(0, 2) << 1L; }
+    pl << rng.range(6, 20) << Q::frac(1, 100000000) << Q(0) << 0L;
+    l << pl.get();
+    long n = rng.range(4, 9), len = rng.range(2, 3);
+    static const Q big = Q::parse("1" + std::string(200, '0'));
+    l << n << len;
+    for (long j = 0; j < len; ++j) {
+        Mat A = gen_spd(rng, n, 0);
+        if (A.n != n) { Dense D(n, std::vector<Q>(n)); for (long i = 0; i < n; ++i) { D[i][i] = Q(4); if (i) D[i][i-1] = Q(-1); if (i + 1 < n) D[i][i+1] = Q(-1); } A = dense_to_mat(D); }
+        if (j + 1 < len) for (auto &v : A.val) v = v * big;            // the failing calls come first
+        l << A << "id" << gen_vec(rng, n, true) << std::vector<Q>(n, Q(0));
+    }
+    return l.get();
+}
+
 static void generate(Rng &rng, const Opts &o, std::vector<std::string> &lines) {
     long N = o.cases > 0 ? o.cases : (o.thorough() ? 3000 : 420);
     // fixed edge cases: 1x1, n = 0, zero matrix, maxiter 0, restart with M = 1, identity matrix (breakdown-like H(1,0) = 0)
@@ -467,6 +545,7 @@ static void generate(Rng &rng, const Opts &o, std::vector<std::string> &lines) {
     lines.push_back("solve_gmres right 2 3 0 0 0 2 2 1 0 1 1 1 1 id 2 1 2 2 0 0 7");             // trailing token
     lines.push_back("solve_gmres right 2 3 0 0 0 2 2 1 0 1 1 1 1 id 2 1 2 2 0");                 // x0 too short
     lines.push_back("hist_gmres right 2 3 0 0 0 2 2 2 2 1 0 1 1 1 1 id 2 1 2 2 0 0 1 1 1 0 1 id 1 1 1 0");   // second call has another n
+    for (int rep = 0; rep < (o.thorough() ? 12 : 3); ++rep) for (int solver = S_GMRES; solver <= S_BICGSTABL; ++solver) lines.push_back(gen_dblhist(rng, solver));
     const long nmax = o.thorough() ? 8 : 6;
     for (long k = 0; k < N; ++k) {
         Line l;
